@@ -661,6 +661,9 @@ func enumerateHist(siteName string, tolNs, ttlNs int64, ivs []int64, thorough bo
 			g := gaps
 			if i == 0 {
 				g = first
+				if !thorough && len(shape) >= 4 {
+					g = first[:1] // quick: 4-delivery histories start at construction time
+				}
 			}
 			for _, a := range g {
 				m := mToR
